@@ -162,6 +162,46 @@ func (c *Ctx) EveryIteration(rule string, fn *ssa.Function, overGlob string, eff
 	c.add("loop", rule, construct, Held, c.P.InstrPos(H.Instrs[len(H.Instrs)-1]), fmt.Sprintf("every iteration reaches the effect (%d site block(s)); the loop ends only by exhaustion; skip edges allowed: %v", n, dedup(skipDescr)))
 }
 
+// SuccessOnlyAfterLoop decides: a success return (`return …, nil`) of fn is reachable only by running the loop over
+// the collection matching overGlob to exhaustion, or across an edge / after a call named by one of `unless`
+// (a disjunction in guard syntax). A fast path that returns before the sweep, or a `return nil` out of the body,
+// makes it fire.
+func (c *Ctx) SuccessOnlyAfterLoop(rule string, fn *ssa.Function, overGlob string, unless string) {
+	if fn == nil {
+		return
+	}
+	fname := c.P.Name(fn)
+	c.FuncsAnalysed[fname] = true
+	construct := fmt.Sprintf("%s#success-only-after-sweep-of:%s", fname, overGlob)
+	hs := loopHeaders(fn, overGlob)
+	if len(hs) != 1 {
+		c.add("loop", rule, construct, Undecided, c.P.Pos(fn.Pos()), fmt.Sprintf("expected exactly one loop over %s, found %d", overGlob, len(hs)))
+		return
+	}
+	H := hs[0]
+	g := parseGuard(unless)
+	removed, descr := guardEdges(fn, g)
+	removed[edge{H, 1}] = true // the exhaustion edge
+	limit := reachUnguarded(fn, removed, g.afters)
+	var bad []string
+	n := 0
+	for _, in := range instrsMatching(fn, RetNil{}) {
+		n++
+		if lim, ok := limit[in.Block()]; ok && indexIn(in.Block(), in) < lim {
+			bad = append(bad, c.P.InstrPos(in))
+		}
+	}
+	pos := c.P.InstrPos(H.Instrs[len(H.Instrs)-1])
+	switch {
+	case n == 0:
+		c.add("loop", rule, construct, Undecided, pos, "no success return found (vacuous)")
+	case len(bad) > 0:
+		c.add("loop", rule, construct, Violated, bad[0], fmt.Sprintf("a success return is reachable without sweeping %s to its end and without %q (at %s): elements are left unprocessed", overGlob, unless, strings.Join(bad, ", ")))
+	default:
+		c.add("loop", rule, construct, Held, pos, fmt.Sprintf("%d success return(s), each behind the exhaustion of the loop or [%s]", n, strings.Join(dedup(descr), "; ")))
+	}
+}
+
 // NextIterationGuarded decides: the loop with header H goes on to its next iteration (a path from the start of the
 // body back to H) only across an edge establishing `guard` — "the scan continues only past elements that passed
 // the test", whatever the loop form (index loop, range loop over a sub-slice).
